@@ -6,3 +6,4 @@ import WrglModel.Props.C09
 #print axioms Wrgl.C09_repeat_lists_nothing
 #print axioms Wrgl.C09_tables_within_depth
 #print axioms Wrgl.C09_transfer_closed_multi
+#print axioms Wrgl.C09_fact_fetchRetryResetsCookies
